@@ -102,7 +102,7 @@ def inline(P, f, select, max_inlines=40, max_depth=3):
         dest = t.get("dest")
         line = t["span"]["line"]
         for gb in g.blocks:
-            nb = {"cleanup": gb["cleanup"], "idom": None,
+            nb = {"cleanup": gb["cleanup"], "idom": None, "inl": g.spath,
                   "stmts": [_remap(s, loff, boff, poff) for s in gb["stmts"]],
                   "term": _shift_targets(_remap(gb["term"], loff, boff, poff), boff)}
             if nb["term"]["k"] == "return":
